@@ -311,11 +311,11 @@ def parseDocstringRest (doc : Str) (emitDefaultDoc : Bool) (inferType := false) 
   (foldRes (parseStepRest emitDefaultDoc inferType wordWrap) {} (scanRest doc)).bind fun st =>
   let fin : Res ParseSt :=
     match st.cur with
-    | some (n, p) =>
+    | some (some n, p) =>       -- `if param[0] is not None:` (fix D6, b31be7d)
       (interpolateDefaults p emitDefaultDoc).bind fun p1 =>
-      (setNameAndType n p1 inferType wordWrap).bind fun (n2, p2) =>
+      (setNameAndType (some n) p1 inferType wordWrap).bind fun (n2, p2) =>
       .ok { st with params := st.params.set n2 p2 }
-    | none => .ok st
+    | _ => .ok st
   fin.bind fun st =>
   (mapParams (fun p => interpolateDefaults p emitDefaultDoc) st.params).bind fun ps =>
   let rs : Res (Option Param) := match st.returns with
